@@ -299,6 +299,9 @@ def run(ctx, res):
     from . import dispatch
     dispatch.check(ctx, res, "C02.R6")
 
+    # ---- properties this one rests on (re-run here, labelled <this>.D.<rule>) ------------------
+    depends(ctx, res, 'C09', ('C09.R6',), "lookups are routed by the index keys the separator function produces: a separator below its block's last key hides that key")
+
 def _signed_char_relations(funcs):
     out = []
     for f in funcs:
